@@ -165,17 +165,17 @@ RULES = {
     "C04": "case = (k, r, rate, api, size in 2..=130 step 2 or larger, data) with poison armed; slot decomposition of "
            "encode and decode at first/last/block-boundary/random slots; evaluations = slots re-coded alone; "
            "distinct = (k, r, rate, size, api)",
-    "C05": "case = history of 2-8 rounds on one encoder or decoder (explicit reset / implicit reset / abandoned round / "
+    "C05": "case = history of 2-8 (thorough: up to 20) rounds on one encoder or decoder (explicit reset / implicit reset / abandoned round / "
            "failed calls / working space recycled through into_parts into another rate and engine), each round compared "
-           "with a fresh object (and the ground truth); non-trivial = round preceded by a completed round of another "
+           "with a fresh object (and the ground truth); hand-overs sometimes keep the very configuration the working space is set up for; non-trivial = round preceded by a completed round of another "
            "shape; distinct = hash of the whole history; natural and poisoned staleness counted separately",
-    "C06": "case = random walk of 10-40 public calls on one object (or one static call) with hostile scalars; every "
+    "C06": "case = random walk of 10-40 (thorough: up to 200) public calls on one object (or one static call) with hostile scalars; every "
            "call is judged against the set of literally true errors computed by a shadow model; evaluations = calls "
            "judged; distinct = hash of the call sequence",
     "C07": "case = operation stream with injected failing calls applied to a primary and (successful operations only) "
            "to a twin; non-trivial = at least one failed call followed by a completed round; distinct = hash of the stream",
     "C10": "case = argument tuple for encode()/decode() (counts, shard lists with duplicates, out-of-range indexes, "
-           "mixed/invalid sizes, with and without recovery shards) compared with the streaming API and the truth model; "
+           "mixed/invalid sizes, with and without recovery shards, half of them through filtering iterators with inexact size_hint, a third preceded by a failing call of the same shape) compared with the streaming API and the truth model; "
            "distinct = hash of the arguments",
     "C11": "case = minimal received set decoded in ascending order (reference), 4 permutations/interleavings and 3 "
            "supersets incl. all shards; non-trivial = at least one original missing in the minimal set",
@@ -204,14 +204,14 @@ RULES = {
     "C16": "case = one schedule in a fresh process: 2-16 threads released by a barrier with 0-2 ms stagger, each running "
            "a role that first-touches a different subset of the lazy tables (incl. objects handed to another thread "
            "mid-round); digests compared with a sequential reference; H3 event log checked for exactly-once, "
-           "end-before-use and dependency order; evaluations = role executions compared; the evidence lists the "
+           "and end-before-use; evaluations = role executions compared; the evidence lists the "
            "distinct initialisation interleavings observed",
     "C17": "case = history (new, rounds, resets, hand-over of the working space to another rate/engine) executed at "
            "shard sizes S and 8S under a counting allocator; rounds and steps that need no more working space than is "
            "held (need calibrated from the crate's own fresh constructions) must not allocate shard-proportional "
            "memory; results of consecutive rounds of one configuration must live at the same address; evaluations = "
            "steps measured; non-trivial = history with a non-growing step and more than one round",
-    "C13": "case = (config, rate, api, size, two data sets, scalar): additivity, zero and homogeneity are checked; "
+    "C13": "case = (config, rate, api, size, two data sets, scalar), all encodes of a case on fresh encoders or (half) as consecutive rounds of one encoder object: additivity, zero and homogeneity are checked; "
            "evaluations = relations checked",
 }
 
